@@ -586,12 +586,15 @@ class LTE:
                 # Absolute change in the number of particles.
                 delta_Ni = abs(new_Ni - self.__Ni)
                 max_Ni_index = new_Ni.argmax()
+                # Judge convergence on every species the composition resolves
+                # (more than 1e-7 of the most abundant one), not only on the
+                # most abundant species: the others may still be far from
+                # equilibrium when that one has stopped moving.
+                resolved = new_Ni > 1e-7 * new_Ni[max_Ni_index]
+                resolved[max_Ni_index] = True
                 relative_tolerance = (
-                    delta_Ni[max_Ni_index] / solution[max_Ni_index]
-                )
-                # TODO: Why not take the maximume relative tolerance of all
-                # species, instead of the relative tolerance of the species
-                # with the maximum number of particles?
+                    delta_Ni[resolved] / new_Ni[resolved]
+                ).max()
 
                 # .. Apply relaxation factor to the new number of particles.
                 # Maximum allowed change.
